@@ -192,7 +192,7 @@ pub fn loud_case(rng: &mut Rng, max_samples: usize) -> Case {
             samples[t * channels + ch] = *x;
         }
     }
-    let mut cfg = gen::gen_config(rng, &ConfigOpts { multithread: Some(false), min_max_parameter: 0 });
+    let mut cfg = gen::gen_config(rng, &ConfigOpts { multithread: Some(false), min_max_parameter: 0, no_experimental: false });
     cfg.subframe_coding.prc.max_parameter = *rng.pick(&[0usize, 1, 2, 4, 8, 14, 14]);
     cfg.subframe_coding.fixed.order_sel = match rng.usize_below(4) {
         0 => config::OrderSel::BitCount,
@@ -258,7 +258,7 @@ pub fn rice_case(rng: &mut Rng, max_samples: usize) -> Case {
             samples[t * channels + ch] = s.round().clamp(gen::smin(bps) as f64, full) as i32;
         }
     }
-    let mut cfg = gen::gen_config(rng, &ConfigOpts { multithread: Some(false), min_max_parameter: 0 });
+    let mut cfg = gen::gen_config(rng, &ConfigOpts { multithread: Some(false), min_max_parameter: 0, no_experimental: false });
     cfg.subframe_coding.prc.max_parameter = rng.urange(0, 14);
     if rng.chance(2, 3) {
         cfg.subframe_coding.prc.max_parameter = cfg.subframe_coding.prc.max_parameter.max(bps.saturating_sub(8).min(14));
@@ -321,7 +321,7 @@ pub fn burst_case(rng: &mut Rng) -> Case {
             };
         }
     }
-    let mut cfg = gen::gen_config(rng, &ConfigOpts { multithread: Some(false), min_max_parameter: 0 });
+    let mut cfg = gen::gen_config(rng, &ConfigOpts { multithread: Some(false), min_max_parameter: 0, no_experimental: false });
     cfg.subframe_coding.prc.max_parameter = 14;
     cfg.subframe_coding.use_fixed = true;
     cfg.subframe_coding.fixed.max_order = 4;
@@ -375,7 +375,7 @@ pub fn sizeclass_case(rng: &mut Rng) -> Case {
             samples[t * channels + c] = (amp * ((t as f64 * f + c as f64).sin() * 0.8 + (rng.f64() - 0.5) * 0.2)) as i32;
         }
     }
-    let mut cfg = gen::gen_config(rng, &ConfigOpts { multithread: None, min_max_parameter: 6 });
+    let mut cfg = gen::gen_config(rng, &ConfigOpts { multithread: None, min_max_parameter: 6, no_experimental: false });
     cfg.block_size = block;
     cfg.subframe_coding.qlpc.lpc_order = cfg.subframe_coding.qlpc.lpc_order.min(8);
     Case {
@@ -406,7 +406,7 @@ pub fn manyframes_case(rng: &mut Rng) -> Case {
             samples[t * channels + c] = (full * env * env * (rng.f64() * 2.0 - 1.0)) as i32;
         }
     }
-    let mut cfg = gen::gen_config(rng, &ConfigOpts { multithread: None, min_max_parameter: 8 });
+    let mut cfg = gen::gen_config(rng, &ConfigOpts { multithread: None, min_max_parameter: 8, no_experimental: false });
     cfg.block_size = block;
     cfg.subframe_coding.qlpc.lpc_order = cfg.subframe_coding.qlpc.lpc_order.min(8);
     if huge {
@@ -431,7 +431,7 @@ pub fn bigblock_case(rng: &mut Rng) -> Case {
     let rate = gen::pick_rate(rng);
     let mut a = gen::gen_audio(rng, channels, bps, rate, len);
     a.recipe = format!("bigblock:{}", a.recipe);
-    let mut cfg = gen::gen_config(rng, &ConfigOpts { multithread: None, min_max_parameter: 8 });
+    let mut cfg = gen::gen_config(rng, &ConfigOpts { multithread: None, min_max_parameter: 8, no_experimental: false });
     cfg.multithread = rng.flip();
     cfg.workers = NonZeroUsize::new(*rng.pick(&[1usize, 2, 4]));
     cfg.subframe_coding.qlpc.lpc_order = cfg.subframe_coding.qlpc.lpc_order.min(8);
@@ -1630,7 +1630,7 @@ pub fn run_c15(ctx: &Ctx) -> i32 {
         let bps = *rng.pick(&gen::WIDTHS);
         let n = *rng.pick(&[32usize, 64, 100, 192]);
         let a = gen::gen_audio(&mut rng, channels, bps, 44100, n);
-        let cfg = gen::gen_config(&mut rng, &ConfigOpts { multithread: Some(false), min_max_parameter: 6 });
+        let cfg = gen::gen_config(&mut rng, &ConfigOpts { multithread: Some(false), min_max_parameter: 6, no_experimental: false });
         let Ok(v) = enc::verified(&cfg) else { return };
         let rp = || json!({"monitor": "C15", "sub": "framenum", "index": idx, "seed": ctx.seed, "tier": ctx.tier.name(), "case": {"frame_number": num, "channels": channels, "bps": bps, "n": n, "signal": a.recipe}});
         let r = crate::common::catch(|| -> Result<(), String> {
